@@ -220,6 +220,21 @@ def check_sub(cell, sub, ctx):
         env.eq_cart("-a = definition", env.cart(n1), ref, sca, 8)
         p = env.call("+a", lambda: +A)
         env.eq_cart("+a = a", env.cart(p), ac, sca, 8)
+        # the results are vectors like any other: their norm is |a| (never negative in 2D / 3D) and their unit vector is
+        # parallel to them - whatever sign conventions the stored coordinates of a negated vector use
+        nmn = {2: "rho", 3: "mag", 4: "tau"}[d]
+        nrm = R.norm(ac)
+        nref = R.norm(ref)
+        cond = (sca / abs(nrm)) ** 2 if nrm != 0 else None
+        if cond is not None and abs(nrm) > mpf("1e-9") * sca and (mp_ or cond < 1e4):
+            for what, vneg in (("-a", n1), ("a.scale(-1)", n2), (f"neg{d}D", n3), ("a.scale(s), s<0", env.call("scale", lambda: A.scale(-abs(s))))):
+                target = nref if "s<0" not in what else R.norm(R.scale(ac, -abs(sm)))
+                tcart = ref if "s<0" not in what else R.scale(ac, -abs(sm))
+                env.eq_num(f"{nmn} of {what} = norm of the negated vector", env.call(nmn, lambda v=vneg: getattr(v, nmn)), target, sca * max(1, abs(sm)), 16 * cond)
+                env.eq_num(f"abs({what}) = norm", env.call("abs", lambda v=vneg: abs(v)), target, sca * max(1, abs(sm)), 16 * cond)
+                if d < 4 or R.tau2(tcart) > mpf("1e-3") * R.scale_of(tcart) ** 2:
+                    U = env.call("unit", lambda v=vneg: v.unit())
+                    env.eq_cart(f"unit({what})*|norm| = {what}", R.scale(env.cart(U), abs(target)), tcart, sca * max(1, abs(sm)), 16 * cond)
         nontrivial = opcheck.nonzero_components(ac)
     elif law == "self_dot":
         x = env.call("dot", lambda: A.dot(A))
